@@ -247,7 +247,7 @@ def sc_all_vars(n):
     return (f'all-variables n={n}', names, pre, body)
 
 
-def sc_args(n, m, with_it):
+def sc_args(n, m, with_it, slash=True):
     names = [f'i{j}' for j in range(n)] + [f's{j}' for j in range(m)]
 
     def pre(v):
@@ -261,18 +261,21 @@ def sc_args(n, m, with_it):
         vars_ = ['v', 'it'] if with_it else ['v']
         sel_ = list(sel)
         ids = (list(vars_), [id(x) for x in sel_], list(data.keys()), {k_: [id(x) for x in c] for k_, c in data.items()})
-        param = {'datapath': api.root + '/d/'}
+        param = {'datapath': api.root + ('/d/' if slash else '/d')}
+        param0 = dict(param)
         R.save_data(param, data, vars=vars_, it=sel_)
         probs = []
         now = (list(vars_), [id(x) for x in sel_], list(data.keys()), {k_: [id(x) for x in c] for k_, c in data.items()})
         if now != ids:
             probs.append('save_data modified one of its arguments (vars / it / data)')
+        if param != param0:
+            probs.append('save_data modified the param dict of its caller')
         rv = ['v']
         R.read_data(param, it=sel_, vars=rv)
-        if rv != ['v'] or [id(x) for x in sel_] != ids[1] or list(param) != ['datapath']:
+        if rv != ['v'] or [id(x) for x in sel_] != ids[1] or param != param0:
             probs.append('read_data modified one of its arguments')
         return probs
-    return (f'arguments-untouched n={n} m={m} with_it={with_it}', names, pre, body)
+    return (f'arguments-untouched n={n} m={m} with_it={with_it} slash={slash}', names, pre, body)
 
 
 def scenarios(tier):
@@ -289,6 +292,7 @@ def scenarios(tier):
         out.append(sc_readall_ragged(n))
         out.append(sc_overwrite_none(n, n - 1))
         out.append(sc_args(n, min(n, 2), with_it=bool(n % 2)))
+        out.append(sc_args(n, 1, with_it=not bool(n % 2), slash=False))
     if tier == 'thorough':
         out += [sc_unsaved(3, 2, 3), sc_overwrite(3, 2, 2), sc_roundtrip(3, 3, True, 1), sc_roundtrip(3, 3, False, 0),
                 sc_args(3, 3, True), sc_args(3, 3, False)]
